@@ -4,6 +4,7 @@ Imports the executable model only (no Mathlib).
 -/
 import MPilot.Driver.Codec
 import MPilot.Model.EemsHeap
+import MPilot.Driver.ProgCodec
 
 open MPilot MPilot.Codec
 
@@ -28,10 +29,112 @@ def handleAlias (toks : List String) : String :=
       | _, _ => "bad-cmd"
   | _ => "bad-op"
 
+/-- context part shared by `clean` and `prog`: working dir, existing paths -/
+def pEnv : P (Option String × List String) := fun ts => do
+  let (wd, r) ← pOptHex ts
+  let (n, r) ← pNat r
+  let (paths, r) ← pMany pHex n r
+  pure ((wd, paths), r)
+
+/-- `clean <env> <ncmds> (<name> <fuzzy> <finished> <isarray> <output|->)* <spec> <raw>` -/
+def handleClean (toks : List String) : String :=
+  let res : Option String := do
+    let ((wd, paths), r) ← pEnv toks
+    let (n, r) ← pNat r
+    let (infos, r) ← pMany (fun ts => do
+      let (nm, r) ← pHex ts
+      let (fz, r) ← pBool r
+      let (fin, r) ← pBool r
+      let (k, r) ← pTok r
+      let kind : ResKind := if k == "a" then .array else if k == "b" then .bool else .other
+      let (out, r) ← pOptSpec' r
+      pure ((nm, ({ isFuzzy := fz, output := out, finished := fin, resultKind := kind } : CmdInfo)), r)) n r
+    let (spec, r) ← pSpec r
+    let (raw, _) ← pRaw r
+    let ctx : Ctx := { workingDir := wd, lookup := fun k => (infos.find? (·.1 == k)).map (·.2),
+                       isCommand := fun k => (infos.any (·.1 == k)), exists_ := fun q => paths.contains q }
+    match clean ctx spec raw with
+    | .ok c =>
+        -- idempotence probe: clean the cleaned value again
+        let again := match clean ctx spec c.embed with
+          | .ok c2 => "ok " ++ showClean c2
+          | .error e => "err " ++ e
+        pure ("ok " ++ showClean c ++ " | " ++ again)
+    | .error e => pure ("err " ++ e)
+  res.getD "bad-clean"
+
+/-- refs named by a raw value (names or Command objects, nested lists flattened) -/
+partial def rawRefs : Raw → List String
+  | .str s => [s]
+  | .cmd s => [s]
+  | .list xs => xs.flatMap rawRefs
+  | _ => []
+
+partial def specHasResult : PSpec → Bool
+  | .result _ _ => true
+  | .list s => specHasResult s
+  | _ => false
+
+/-- the driver's instance of `Sem`: reads = result-typed inputs in declared order; value = a token recording what was read -/
+def tokSem : Sem String :=
+  { pulls := fun c => c.decl.inputs.flatMap fun i =>
+      if specHasResult i.spec then
+        match (dedupArgs c.args).find? (·.name == i.name) with
+        | some a => rawRefs a.value
+        | none => []
+      else []
+    compute := fun c vals =>
+      match (dedupArgs c.args).find? (·.name == "Fail") with
+      | some ⟨_, .str "mp", _⟩ => .error (.mp "ProgramError" c.line)
+      | some ⟨_, .str "value", _⟩ => .error (.raw "ValueError")
+      | _ =>
+        let body := c.resultName ++ "(" ++ ",".intercalate vals ++ ")"
+        .ok (if c.decl.output == some PClass.data then "arr:" ++ body
+             else if c.decl.name == "W" then "true:" ++ body else body)
+    kind := fun v => if v.startsWith "arr:" then .array else if v.startsWith "true:" then .bool else .other }
+
+inductive Op | run | result (n : String)
+
+def pOp : P Op := fun ts => do
+  let (t, r) ← pTok ts
+  if t == "run" then pure (.run, r)
+  else if t == "result" then do let (n, r) ← pHex r; pure (.result n, r)
+  else none
+
+/-- `prog <env> <ndecls> decl* <nnodes> node* <nops> op*` -/
+def handleProg (toks : List String) : String :=
+  let res : Option String := do
+    let ((wd, paths), r) ← pEnv toks
+    let (nd, r) ← pNat r
+    let (decls, r) ← pMany pDecl nd r
+    let (nn, r) ← pNat r
+    let (nodes, r) ← pMany pNode nn r
+    let (no, r) ← pNat r
+    let (ops, _) ← pMany pOp no r
+    let lib := fun (k : String) => decls.find? (·.name == k)
+    let p0 : Program := { cmds := [], workingDir := wd, exists_ := fun q => paths.contains q }
+    match fromNodes lib p0 nodes with
+    | .error e => pure ("load " ++ showPErr e)
+    | .ok p =>
+      let (st, outs) := ops.foldl (fun (acc : St String × List String) op =>
+        let (st, outs) := acc
+        match op with
+        | .run =>
+            let (st', e) := run tokSem p st
+            (st', outs ++ [match e with | some e => showPErr e | none => "ok"])
+        | .result n =>
+            let (st', e) := runCmd tokSem p (p.cmds.length + 1) st n
+            (st', outs ++ [match e with | some e => showPErr e | none => "ok"])) (({ memo := [], log := [] } : St String), [])
+      pure ("load ok ; " ++ " ".intercalate outs ++ " ; " ++ " ".intercalate (st.log.map showEv) ++ " ; " ++
+            " ".intercalate (st.memo.map fun (k, v) => hex k ++ "=" ++ hex v))
+  res.getD "bad-prog"
+
 def handle (line : String) : String :=
   match (line.trimAscii.toString.splitOn " ").filter (· != "") with
   | "exec" :: rest => handleExec rest
   | "alias" :: rest => handleAlias rest
+  | "clean" :: rest => handleClean rest
+  | "prog" :: rest => handleProg rest
   | "ping" :: _ => "pong"
   | _ => "bad-op"
 
